@@ -29,6 +29,7 @@ EXPLANATION = (
     "action's static route. NOT decided: agreement as a run-time behaviour in every transitional state (follows from "
     "R11.1 given validators are pure state predicates, R5.3)."
 )
+TECHNIQUE = "static: exhaustive truth table of check_valid vs __call__ over (key, validator, sub-manager, sub-tree), structural check of mask construction, validator predicate tables"
 ASSUMPTIONS = ["validators are pure (checked by C05 R5.3)", "the request tree only changes through add/remove_request"]
 
 
